@@ -10,7 +10,7 @@
    used by the extracted model satisfies [bump_ok] only for clock readings below 2^44 s
    (C17_strictly_increasing_float_refuted). *)
 From Coq Require Import QArith ZArith List Bool.
-From CS Require Import Sx SchedModel SchedProofs.
+From CS Require Import Sx SchedModel SchedProofs GenSched SchedGenEq.
 Import ListNotations.
 Open Scope Q_scope.
 
@@ -203,3 +203,12 @@ Example history_example :
     change (cfg_exact (1 # 4) (1 # 2)) 13 2 [0%nat; 1%nat] s = Ok (Some 1%nat) /\
     change (cfg_exact (1 # 4) (1 # 2)) 13 3 [1%nat; 0%nat] s = Ok (Some 1%nat).
 Proof. exact demo_history_runs. Qed.
+
+(* ---- second tie: the formulas regenerated from the CURRENT source are the model's ------------- *)
+Theorem C17_gen_eligible_is_model : forall et e, gen_eligible et e = eligible et e.
+Proof. exact gen_eligible_eq. Qed.
+Print Assumptions C17_gen_eligible_is_model.
+
+Theorem C17_gen_sort_key_is_model : forall a b, gen_key_ltb a b = key_ltb a b.
+Proof. exact gen_key_ltb_eq. Qed.
+Print Assumptions C17_gen_sort_key_is_model.
